@@ -5,13 +5,19 @@ Pick(i) == LET r == RandomElement(0..(3 * i - 1)) IN IF r >= i THEN i - 1 ELSE r
 GenInit == /\ InitWith([i \in 1..NP |-> Pick(i)])
            /\ lp = {0} /\ ledger = 0 /\ lastVote = 0 /\ pref = 0 /\ votes = [p \in 1..NP |-> {}]
 AnyP == RandomElement(Props)
+Or(S) == IF S = {} THEN AnyP ELSE RandomElement(S)
+Frontier == {p \in Props : p \notin main /\ Par(p) \in main}       \* proposals whose parent is in the tree
+Votable == lp \cap main \cap Props
 GenNext ==
   /\ Len(hist) < MaxOps
-  /\ \/ \E b \in 1..3 : Confirm(AnyP)
-     \/ \E b \in 1..3 : Propose(AnyP, FALSE)
-     \/ \E b \in 1..3 : Propose(AnyP, TRUE)
-     \/ \E b \in 1..4 : Vote(AnyP, RandomElement(Voters))
-     \/ \E b \in 1..2 : Justify(AnyP)
+  /\ \/ \E b \in 1..2 : Confirm(AnyP)
+     \/ Confirm(Or(Frontier))
+     \/ \E b \in 1..2 : Propose(AnyP, RandomElement(BOOLEAN))
+     \/ \E b \in 1..3 : Propose(Or(Frontier), RandomElement(BOOLEAN))
+     \/ Vote(AnyP, RandomElement(Voters))
+     \/ \E b \in 1..4 : Vote(Or(Votable), RandomElement(Voters))
+     \/ \E b \in 1..2 : Justify(Or(main \cap Props))
+     \/ Justify(AnyP)
      \/ Rollback(RandomElement(Ids))
 GenSpec == GenInit /\ [][GenNext]_svars
 Dump == Len(hist) < MaxOps \/ (JsonSerialize("out/b_" \o ToString(TLCGet("stats").traces) \o ".json", hist) /\ FALSE)
